@@ -68,8 +68,17 @@ func (w *world) handler() (fox.HandlerFunc, uint64) {
 	return func(c fox.Context) {}, w.next
 }
 
-// observe renders everything visible through a snapshot.
-func (w *world) observe(s *snap) uint64 {
+// observe renders everything visible through a snapshot (a panic while reading it is an observation too).
+func (w *world) observe(s *snap) (digest uint64) {
+	defer func() {
+		if p := recover(); p != nil {
+			digest = 0xDEAD
+		}
+	}()
+	return w.observe1(s)
+}
+
+func (w *world) observe1(s *snap) uint64 {
 	h := fnv.New64a()
 	put := func(parts ...string) {
 		for _, p := range parts {
@@ -248,6 +257,9 @@ func (g *grapher) arr(a uintptr) uint64 {
 }
 
 func (g *grapher) visit(v *fox.VerifNode) uint64 {
+	if v == nil { // a nil entry in a roots / children array: no such object in the model
+		return 0
+	}
 	if id, ok := g.nid[v.Addr]; ok {
 		return id
 	}
@@ -519,7 +531,7 @@ func main() {
 	cs := &hx.Cases{Header: header, Type: "c3case", Footer: footer}
 	st := &hx.Stats{Rule: "histories of 6-45 events over a pool of 5-12 colliding patterns (shared prefixes, same position with different wildcard names, hostnames) on GET/POST/FOO/BAR: Handle/Update/Delete/Truncate issued through the Router helpers or inside write transactions (Commit/Abort), with snapshots (Txn.Iter, Txn.Snapshot, Router.Iter, Router.Txn(false)) at random points including inside write transactions; every snapshot is re-observed in full and the object graph is dumped after every event; plus eviction streams (fan-out 66, depth 3, > 4096 nodes cloned in one transaction). non-trivial = history in which at least one snapshot was taken and at least one successful write followed it; distinct = distinct event sequences"}
 
-	n := 150
+	n := 300
 	if tier == "thorough" {
 		n = hx.Atoi(os.Getenv("VERIF_C03_N"), 3000)
 	}
@@ -548,8 +560,50 @@ func main() {
 				pool[i] = b
 			}
 		}
+		mode := rnd.Intn(100)
+		wide := mode < 20
+		deep := mode >= 20 && mode < 45
+		manyMethods := mode >= 45 && mode < 60
+		if deep {
+			// chains of prefixes: most patterns are prefixes or siblings of others, so failed calls (exists / not found)
+			// end on nodes that later operations of the same transaction pass through
+			pool = []string{"/" + hx.Pick(rnd, []string{"a", "b", "c"})}
+			for len(pool) < 12 {
+				b := hx.Pick(rnd, pool)
+				b += hx.Pick(rnd, []string{"/a", "/b", "/c", "a", "b", "/", "/{x}"})
+				if !strings.Contains(b, "//") && !strings.Contains(b, "}a") && !strings.Contains(b, "}b") && !strings.Contains(b, "}{") {
+					pool = append(pool, b)
+				}
+			}
+		}
+		if wide {
+			// wide nodes: many one-letter edges below "/" and below a few "/x/" prefixes, inserted in random
+			// order (children arrays grow by append and are re-sorted; spare capacity of a backing array matters)
+			letters := []byte("abcdefghijklmnop")
+			for i := len(letters) - 1; i > 0; i-- {
+				j := rnd.Intn(i + 1)
+				letters[i], letters[j] = letters[j], letters[i]
+			}
+			pool = pool[:0]
+			nl := rnd.Range(6, 12)
+			for i := 0; i < nl; i++ {
+				pool = append(pool, "/"+string(letters[i]))
+				if rnd.Pct(30) {
+					pool = append(pool, "/"+string(letters[i])+"/"+string(letters[rnd.Intn(nl)]))
+				}
+			}
+		}
 		w.pats = pool
 		w.methods = []string{"GET", "POST", "FOO", "BAR"}
+		if wide {
+			w.methods = []string{"GET", "FOO"}
+		}
+		if manyMethods {
+			// method roots come and go (addRoot / removeRoot on the roots slice)
+			w.methods = []string{"FOO", "BAR", "BAZ", "QUX", "GET"}
+			pool = pool[:rnd.Range(2, 4)]
+			w.pats = pool
+		}
 		for _, p := range pool {
 			for k := 0; k < 3; k++ {
 				h, pa := rt.SplitPattern(rt.Instantiate(rnd, p, false))
@@ -564,31 +618,53 @@ func main() {
 		}
 		steps := rnd.Range(6, 45)
 		snapPct := hx.Pick(rnd, []int{8, 15, 25})
+		switch {
+		case wide:
+			st.Count("history:wide")
+		case deep:
+			st.Count("history:deep")
+		case manyMethods:
+			st.Count("history:many-methods")
+		default:
+			st.Count("history:mixed")
+		}
+		togglePct := 9
+		if deep {
+			togglePct = 5
+			steps = rnd.Range(20, 45)
+		}
 		var terms, human []string
 		writesAfterSnap := 0
 		for si := 0; si < steps; si++ {
 			var e ev
 			r := rnd.Intn(100)
 			switch {
-			case r < snapPct && len(w.snaps) < 7:
+			case r < snapPct && len(w.snaps) < 8:
 				if w.txn != nil && rnd.Pct(75) {
 					e.kind = hx.Pick(rnd, []string{"SnapIter", "SnapClone"})
 				} else {
 					e.kind = hx.Pick(rnd, []string{"ObsIter", "ObsTxn"})
 				}
-			case r < snapPct+9:
+			case r < snapPct+togglePct:
 				if w.txn == nil {
 					e.kind = "Begin"
+					if len(w.snaps) < 8 && rnd.Pct(50) && (len(human) == 0 || !strings.HasPrefix(human[len(human)-1], "Obs")) {
+						e.kind = hx.Pick(rnd, []string{"ObsIter", "ObsTxn"}) // a reader holds the published tree while the transaction runs
+					}
 				} else if rnd.Pct(75) {
 					e.kind = "Commit"
 				} else {
 					e.kind = "Abort"
 				}
 			default:
+				hp := 45
+				if wide {
+					hp = 65
+				}
 				switch q := rnd.Intn(100); {
-				case q < 45:
+				case q < hp:
 					e.kind = "Handle"
-				case q < 60:
+				case q < hp+13:
 					e.kind = "Update"
 				case q < 95:
 					e.kind = "Delete"
